@@ -1661,6 +1661,8 @@ def preprocess_arg(arg: ColExpr, table: Table, *, agg_is_window: bool = True) ->
             and types.without_const(new.args[0].dtype()) == Bool()
             and new.op in (ops.add, ops.sum)
         ):
+            # (type errors must surface before the rewrite: Bool + Int is not defined)
+            new.dtype()
             new.args = [arg.cast(Int64) for arg in new.args]
 
         return new
